@@ -850,6 +850,25 @@ func execC12Notif(c C12NotifCase) *Failure {
 			return TimingFailf("C12/notification-handler-lost", "%s: a %s notification sent after the registrations reached none of the handlers registered last for it", where, name)
 		}
 	}
+	// the table runs empty and is filled again: a handler registered after the last one was removed works like the first
+	for _, m := range []string{"notifications/stable", "notifications/churn", "notifications/twin-only", "notifications/plug-0", "notifications/plug-1", "notifications/plug-2", "notifications/plug-3", "notifications/plug-4"} {
+		unregisterNotif(srv, m)
+	}
+	var again atomic.Int64
+	registerNotif(srv, "notifications/again", func(ctx context.Context, n *mcp.JSONRPCNotification) error { again.Add(1); return nil })
+	body := []byte(`{"jsonrpc":"2.0","method":"notifications/again"}`)
+	if c.Mode == ModeStdio {
+		conns[0].in.Write(append(body, '\n'))
+	} else {
+		conns[0].Send(body, "", 0)
+	}
+	deadline = time.Now().Add(Patience())
+	for again.Load() == 0 && time.Now().Before(deadline) {
+		time.Sleep(300 * time.Microsecond)
+	}
+	if again.Load() != 1 {
+		return TimingFailf("C12/notification-handler-lost", "%s: every handler was removed and one registered anew; its notification ran it %d times", where, again.Load())
+	}
 	return nil
 }
 
